@@ -14,7 +14,7 @@ import (
 
 func genCaseC06(t *rapid.T) *Case {
 	strategy := rapid.SampledFrom([]string{"R", "R", "A", "RA"}).Draw(t, "strategy")
-	p := Profile{Strategy: strategy, MaxDepth: rapid.IntRange(2, 4).Draw(t, "maxDepth"), Dirs: rapid.IntRange(0, 3).Draw(t, "dirs") == 0}
+	p := Profile{Strategy: strategy, MaxDepth: rapid.IntRange(2, 4).Draw(t, "maxDepth"), Dirs: rapid.IntRange(0, 3).Draw(t, "dirs") == 0, Mutation: rapid.Bool().Draw(t, "mutationType")}
 	p.Args = rapid.IntRange(0, 3).Draw(t, "args") == 0
 	s := GenSchema(t, p)
 	leaf := LeafFn(GenLeaf)
